@@ -18,7 +18,8 @@ LEVEL_TEXT = ("Every action sequence up to length 3 over a 13-letter alphabet x 
               "directions) against the subscription model at every idle point, and the polarity of every SubscribeAck on the wire "
               "against the model's accept decision. Histories beyond the core are sampled")
 LEVEL_NOTE = ("trusts the subscription model + reboot-detector model in this module and pv/refwire.py for decoding acknowledgements; "
-              "the listener's accept/reject policy is fixed per subscription identity within one history")
+              "the listener's accept/reject policy per subscription identity is scripted and may change during a history (a Subscribe at the "
+              "exact deadline of a live subscription whose identity is currently rejected is not generated: it has two legitimate outcomes)")
 RULE = (
     "alphabet: Subscribe ttl1 / ttl-inf, StopSubscribe, Subscribe for a second eventgroup, Subscribe the listener rejects, "
     "reboot+Subscribe, reboot only, service stop, service start, connection loss, Subscribe from a second subscriber, "
@@ -31,7 +32,7 @@ ASSUMPTIONS = ["subscription identity = (service, instance, major version, event
                "truth is judged at idle points only; coincident Subscribe/deadline accepts both outcomes"]
 FLOORS = {"quick": {"histories": 25000, "exhaustive_core_histories": 20000, "random_histories": 3000, "idle_truth_checks": 250000,
                     "alternation_events": 50000, "acks_judged": 80000, "positive_acks": 40000, "negative_acks": 15000,
-                    "rejected_subscriptions": 5000, "same_iteration_placements": 20000, "deadline_before_placements": 4000,
+                    "rejected_subscriptions": 5000, "policy_changes": 3000, "same_iteration_placements": 20000, "deadline_before_placements": 4000,
                     "deadline_after_placements": 4000, "reboot_with_subscribe_messages": 3000}}
 
 FOREVER = 0xFFFFFF
@@ -58,6 +59,7 @@ class Model:
         self.accepted_any = False
         self.rejected = 0
         self.reboot_sub = 0
+        self.policy = set(REJECTED)  # identities the listener currently rejects
 
     def expire(self, t, inclusive):
         for k in [k for k, d in self.live.items() if d != math.inf and (d <= t + RES if inclusive else d < t - RES)]:
@@ -93,13 +95,15 @@ class Model:
                 if key in self.live:
                     self.live[key] = math.inf if ttl == FOREVER else t + ttl
                     self.acks[sub].append(True)
-                elif tag in REJECTED:
+                elif tag in self.policy:
                     self.acks[sub].append(False)
                     self.rejected += 1
                 else:
                     self.live[key] = math.inf if ttl == FOREVER else t + ttl
                     self.acks[sub].append(True)
                     self.accepted_any = True
+        elif kind == "policy":
+            (self.policy.add if a["reject"] else self.policy.discard)(a["tag"])
         elif kind == "svc_stop":
             self.running[a["inst"]] = False
             for key in [key for key in self.live if key[1][0] == a["inst"]]:
@@ -128,6 +132,7 @@ class Run:
         self.pos = 0
         self.violations = []
         self.stats = dict(idle_truth_checks=0, alternation_events=0, acks_judged=0, positive_acks=0, negative_acks=0)
+        self.policy = set(REJECTED)
         self.instances = {}
         for name, (sid, iid, maj, egs) in INSTANCES.items():
             svc = C.Service(sid, iid, maj, 0, eventgroups=frozenset(egs))
@@ -140,7 +145,7 @@ class Run:
         class L(S.ServerServiceListener):
             def client_subscribed(self, sub, source):
                 tag = run._tag(inst, sub)
-                if tag in REJECTED:
+                if tag in run.policy:
                     raise S.NakSubscription()
                 run._event("subscribed", source, tag)
 
@@ -161,8 +166,6 @@ class Run:
         self.events.append((next(self.seq), self.h.loop.time(), kind, sub, tag))
         self.stats["alternation_events"] += 1
         hist = [e for e in self.events if e[3] == sub and e[4] == tag]
-        if tag in REJECTED:
-            self.fail("rejected-subscription-reported-to-listener", sub, tag, hist)
         if len(hist) == 1:
             if kind != "subscribed":
                 self.fail("subscription-history-does-not-begin-with-subscribed", sub, tag, hist)
@@ -179,6 +182,8 @@ class Run:
         k = a["kind"]
         if k == "msg":
             self.prot.datagram_received(a["data"], SUBS[a["sub"]], a["mc"])
+        elif k == "policy":
+            (self.policy.add if a["reject"] else self.policy.discard)(a["tag"])
         elif k == "svc_stop":
             ann.stop_announce_service(self.instances[a["inst"]])
         elif k == "svc_start":
@@ -261,6 +266,7 @@ class Builder:
         self.running = {n: True for n in INSTANCES}
         self.lost = False
         self.last_rank = BEFORE
+        self.policy = set(REJECTED)
 
     def pending(self):
         ds = sorted(d for d in self.deadlines.values() if d != math.inf and d > self.now + 2 * EPS)
@@ -292,8 +298,16 @@ class Builder:
         if p is None:
             return False
         t, rank = p
+        if k == "policy":
+            (self.policy.add if a["reject"] else self.policy.discard)(a["tag"])
         if k == "msg":
             sub = a["sub"]
+            for tag, ttl in a["entries"]:
+                d = self.deadlines.get((sub, tag))
+                if ttl and tag in self.policy and d is not None and d != math.inf and abs(d - t) <= RES:
+                    # Subscribe at the deadline of a live subscription the listener would now reject: "refresh wins" and
+                    # "expired, then rejected" are both legitimate, so this history would have no single expected outcome
+                    return False
             if a.get("reboot"):
                 self.sess[sub].reboot()
             flag, sid = self.sess[sub].next("m" if a["mc"] else "u")
@@ -313,7 +327,8 @@ class Builder:
                     del self.deadlines[kk]
             if not a["mc"]:
                 for tag, ttl in a["entries"]:
-                    if ttl == 0 or tag in REJECTED or not self.running[tag[0]] or tag[1] not in INSTANCES[tag[0]][3]:
+                    if ttl == 0 or (tag in self.policy and (sub, tag) not in self.deadlines) or not self.running[tag[0]] \
+                            or tag[1] not in INSTANCES[tag[0]][3]:
                         if ttl == 0:
                             self.deadlines.pop((sub, tag), None)
                     else:
@@ -357,6 +372,8 @@ ALPHABET = {
     "subB1t1": dict(kind="msg", sub="B", mc=False, entries=[(I1, 1)]),
     "stop+subA1t2": dict(kind="msg", sub="A", mc=False, entries=[(I1, 0), (I1, 2)]),
     "subA1c1t1": dict(kind="msg", sub="A", mc=False, entries=[(I1c, 1)]),
+    "reject-I1": dict(kind="policy", tag=I1, reject=True),
+    "accept-I1": dict(kind="policy", tag=I1, reject=False),
 }
 LETTERS = list(ALPHABET)
 PLACEMENTS = ("new", "same", "d-eps", "d:before", "d:after", "d+eps")
@@ -411,6 +428,9 @@ def random_history(rng):
             a = dict(kind="svc_start" if not b.running[inst] else "svc_stop", inst=inst)
         elif r < 0.86:
             a = dict(kind="lost")
+        elif r < 0.92:
+            tg = rng.choice(hot)
+            a = dict(kind="policy", tag=tg, reject=tg not in b.policy)
         else:
             a = dict(kind="msg", sub=rng.choice("AB"), mc=False, entries=[(rng.choice(hot), rng.choice((1, 2)))])
         pl = rng.choice(("new", "new", "same", "same", "d-eps", "d:before", "d:after", "d+eps"))
@@ -432,6 +452,7 @@ def judge(ctx, builder, seed, replay, core, collect):
         ctx.count(k, v)
     ctx.count("rejected_subscriptions", run.model.rejected)
     ctx.count("reboot_with_subscribe_messages", run.model.reboot_sub)
+    ctx.count("policy_changes", sum(1 for _t, _r, a in builder.script if a["kind"] == "policy"))
     for mech, detail in run.violations[:2]:
         detail["script"] = brief(builder.script)
         detail["collection_timeout"] = collect
